@@ -27,3 +27,14 @@ func (p *Path) VerifLocalID() uint32                     { return p.localID }
 
 // VerifSetLocalID sets the local path identifier (normally assigned by destination.Calculate).
 func (p *Path) VerifSetLocalID(id uint32) { p.localID = id }
+
+// C13: conditions over concrete sets (normally resolved through the policy's defined-set map).
+func VerifCommunityCondition(s *CommunitySet, o MatchOption) *CommunityCondition {
+	return &CommunityCondition{set: s, option: o}
+}
+func VerifExtCommunityCondition(s *ExtCommunitySet, o MatchOption) *ExtCommunityCondition {
+	return &ExtCommunityCondition{set: s, option: o}
+}
+func VerifLargeCommunityCondition(s *LargeCommunitySet, o MatchOption) *LargeCommunityCondition {
+	return &LargeCommunityCondition{set: s, option: o}
+}
